@@ -139,10 +139,15 @@ def _pels(case):
         for k in range(case['n']):
             pel = genpel.gen_pel(rng, kinds=['PS', 'UD', 'UD'], creator='O', sev=0x40, flags=0x2000,
                                  eid=encode.u32(0x50001000 + k))
-            pel['secs'][1] = genpel.gen_ud(rng, route='json')
+            pel['secs'][1] = genpel.gen_ud(rng, route='json') if k % 3 else genpel.gen_hostile_json_ud(rng)
             pel['secs'][2] = _text_ud(rng)
             pel['secs'][0]['callouts'] = None
             pel['secs'][0]['flags'] &= 0xFE
+            if k in (1, 4) or rng.random() < .15:
+                # a section whose parser module fails (the decoder shows it with an error note): whatever
+                # that failure does inside the process, what is printed afterwards is still one document
+                from .. import dirrun
+                pel['secs'].append(dirrun.failing_plugin_ud(rng))
             seams.write_file(os.path.join(d, '%08X' % (0x50001000 + k)), encode.encode(pel))
         # a second directory in which some files yield no document (hidden / informational PELs, junk) - among
         # them, often, the first or the last one in listing order
